@@ -236,7 +236,13 @@ func Corpus(c *Ctx) []*FileSpec {
 			def(Ext("d_bool", 122, Opt, "bool", FullName(pkg, "Base")), "true"),
 			def(Ext("d_enum", 123, Opt, "enum:"+FullName(pkg, "Color"), FullName(pkg, "Base")), "GREEN"),
 			def(Ext("d_dbl", 124, Opt, "double", FullName(pkg, "Base")), "2.5"),
-			Ext("no_default", 125, Opt, "int64", FullName(pkg, "Base")))
+			Ext("no_default", 125, Opt, "int64", FullName(pkg, "Base")),
+			def(Ext("d_bytes", 126, Opt, "bytes", FullName(pkg, "Base")), "Hello, bytes\\000\\377"),
+			def(Ext("d_float", 127, Opt, "float", FullName(pkg, "Base")), "-1.5"),
+			def(Ext("d_sint64", 128, Opt, "sint64", FullName(pkg, "Base")), "-9"),
+			def(Ext("d_uint32", 129, Opt, "uint32", FullName(pkg, "Base")), "4000000000"),
+			def(Ext("d_fixed64", 130, Opt, "fixed64", FullName(pkg, "Base")), "12"),
+			Ext("no_default_bytes", 131, Opt, "bytes", FullName(pkg, "Base")))
 		f.MessageType = append(f.MessageType, base, holder)
 		add("extdefault", "extension-defaults", false, f)
 	}
@@ -352,6 +358,18 @@ func Corpus(c *Ctx) []*FileSpec {
 		other := Msg("Other", F("need", 1, Req, "string"))
 		f.MessageType = append(f.MessageType, query, reply, other)
 		add("reqshadow", "required-in-later-message-of-same-short-name", true, f)
+	}
+
+	if len(c.SpecialFields) > 0 { // fields whose Go names carry a '_' suffix (specialname option)
+		f := c.File("special", "proto3")
+		m := Msg("Blob", F("name", 1, Opt, "string"))
+		kinds := []string{"int32", "string", "bytes", "int64", "bool", "double"}
+		for i, n := range c.SpecialFields {
+			m.Field = append(m.Field, F(n, int32(i+2), Opt, kinds[i%len(kinds)]))
+		}
+		m.Field = append(m.Field, F("tail", 20, Rep, "uint32"))
+		f.MessageType = append(f.MessageType, m)
+		add("special", "special-field-names", true, f)
 	}
 
 	// ---- imports: types that live in ANOTHER .proto / Go package than the file being generated ----
